@@ -38,32 +38,10 @@ theorem C11_code_shape :
     Gen.builtinByIdentity = true ∧ Gen.leafStructural = true ∧ Gen.fromJsonMarksInitialized = true := by
   decide
 
-/-- the check behind `C11_builtins_wellformed`, evaluated on the generated table -/
-def registeredOk (t : String) : Bool :=
-  match Gen.dtypeTuples.find? (fun e => e.1 == t) with
-  | some e => isPrimName e.2.1
-  | none => true
-
-theorem builtin_table_ok : ∀ e ∈ Gen.builtinMap, registeredOk e.2 = true := by decide
-
 /-- every dtype `dtype_t::getBuiltin` can return (for any key, known or not) is well formed:
-    the element of every registered vector is a builtin scalar. -/
-theorem C11_builtins_wellformed (key : String) : (getBuiltin key).WF := by
-  unfold getBuiltin
-  cases hf : Gen.builtinMap.find? (fun e => e.1 == key) with
-  | none => simp [none_, Dtype.WF]
-  | some e =>
-    have hm : e ∈ Gen.builtinMap := List.mem_of_find?_eq_some hf
-    have hok := builtin_table_ok e hm
-    unfold registeredOk at hok
-    cases ht : Gen.dtypeTuples.find? (fun x => x.1 == e.2) with
-    | none =>
-      by_cases hp : isPrimName e.2 = true
-      · simp [registeredByName, ht, hp, Dtype.WF]
-      · simp [registeredByName, ht, hp, Dtype.WF]
-    | some x =>
-      simp only [ht] at hok
-      simp [registeredByName, ht, Dtype.WF, hok]
+    the element of every registered vector is a builtin scalar (checked on the generated table,
+    `builtin_table_ok` in Lemmas/Dtype.lean). -/
+theorem C11_builtins_wellformed (key : String) : (getBuiltin key).WF := getBuiltin_wf key
 
 example : getBuiltin "float4" = .tuple "float4" (.prim "float") 4 := by
   simp [getBuiltin, Gen.builtinMap, registeredByName, Gen.dtypeTuples, List.find?]
